@@ -352,7 +352,9 @@ class BehavioralRTLIRToVVisitorL1( bir.BehavioralRTLIRNodeVisitor ):
           return one_bit_template.format( **locals() )
 
     elif isinstance( node.value, bir.Index ):
-      _one_bit = True
+      # an index is a bit selection only if it yields one bit; indexing an
+      # array yields a whole element whose MSB has to be replicated
+      _one_bit = ( current_nbits == 1 )
     else:
       _one_bit = False
 
